@@ -10,7 +10,7 @@ import shutil
 import subprocess
 import tempfile
 
-from .. import core, env, tex
+from .. import core, env, probe, tex
 from ..gen import docs as gdocs
 from ..gen import soup as gsoup
 
@@ -120,6 +120,9 @@ class C01(core.Check):
     assumptions = ['source length is measured in Python characters (as tex2txt does); CLI input without \\r']
 
     def setup(self, tier):
+        self.clock = probe.StepClock()
+        self.clock.start()
+        self.cap = probe.ParserCapture()
         self.tmp = tempfile.mkdtemp(prefix='yvm_c01_')
         self.gls = os.path.join(self.tmp, 'y.glsdefs')
         with open(self.gls, 'w', encoding='utf-8') as f:
@@ -132,6 +135,8 @@ class C01(core.Check):
             f.write(SED)
 
     def teardown(self):
+        self.clock.stop()
+        self.cap.restore()
         shutil.rmtree(self.tmp, ignore_errors=True)
 
     def cases(self, tier, seed, shard, nshards):
@@ -222,7 +227,16 @@ class C01(core.Check):
         if fam == 'cli':
             return self.judge_cli(case, cnt)
         src, opts, ml = self.materialise(case)
-        r, err = tex.run(src, ml=ml, **opts)
+        from . import c07
+        kind, r, err, steps, tb, limit = c07.guarded_run(self.clock, self.cap, src, opts, ml)
+        if kind is not None:
+            why = c07.exclusion(self.cap.last, src + (opts.get('defs') or ''), err, kind)
+            if why:
+                cnt['excluded:' + why] = 1
+                return dict(ok=True, nt=False, key=None, cnt=cnt, obs=None)
+            where = ('@' + core.exc_origin(tb)[1]) if tb is not None else ''
+            return dict(ok=False, nt=True, key='no-result:%s%s' % (kind, where), cnt=cnt, obs=None,
+                        detail=dict(src=src, opts=opts, ml=ml, kind=kind, steps=steps, stderr=err[-1000:]))
         parts = [('', r[0], r[1])] if not ml else [(lg, p[0], p[1]) for lg in r for p in r[lg]]
         if fam == 'tail':
             cnt['tail_' + TAILS[case['tail']][0]] = 1
